@@ -145,18 +145,18 @@ def parent_observation(sut, monitors, parent, values):
     return snap, verdicts
 
 
-def check_parent(ctx, before, sut, monitors, parent, values, op, case):
+def check_parent(ctx, before, sut, monitors, parent, values, op, case, finding=None):
     ctx.count("parent.snapshots")
     snap, verdicts = parent_observation(sut, monitors, parent, values)
     changed = before[0].diff(snap)
     if changed:
         ctx.witness("parent_changed", {**case, "after": op},
                     f"after '{op}' on the child the parent's {changed} differ: "
-                    f"{monitors.first_difference(before[0].fp, snap.fp)}")
+                    f"{monitors.first_difference(before[0].fp, snap.fp)}", finding=finding)
         return False
     if verdicts != before[1]:
         ctx.witness("parent_verdicts_changed", {**case, "after": op},
-                    f"after '{op}' on the child the parent validates differently")
+                    f"after '{op}' on the child the parent validates differently", finding=finding)
         return False
     return True
 
@@ -408,6 +408,20 @@ def run_family(ctx, sut, monitors, fpm, rng, chain):
             if not check_parent(ctx, parent_obs[anc_level]["obs"], sut, monitors, classes[anc_level],
                                 parent_obs[anc_level]["values"], f"{op} on leaf (ops {ops})", case):
                 return
+    # last of all (it is a known finding, F47, and must not mask the steps above): edit the ELEMENT of a
+    # property the leaf merely inherited
+    inherited = [name for name, prop in leaf.properties.items()
+                 if not isinstance(prop.element, type) and len(classes) >= 2
+                 and name in classes[-2].properties and classes[-2].properties[name].element is prop.element]
+    if inherited and rng.random() < 0.3:
+        name = rng.choice(sorted(inherited))
+        leaf.properties[name].element.default = "edited-on-the-child"
+        ctx.count("childop.inherited_element_edit")
+        for anc_level in range(len(chain) - 1):
+            if not check_parent(ctx, parent_obs[anc_level]["obs"], sut, monitors, classes[anc_level],
+                                parent_obs[anc_level]["values"], f"element of inherited property {name!r} edited on leaf",
+                                case, finding="F47"):
+                break
     overrides = any(node["kw"] or node["props"] for node in chain[1:])
     if overrides and accepted and rejected:
         ctx.nontrivial(canon(chain))
